@@ -1,0 +1,181 @@
+//go:build verif
+
+package exec
+
+import (
+	"context"
+	"fmt"
+	"reflect"
+
+	"github.com/theory/sqljson/path/ast"
+)
+
+// Verification hooks, compiled only with the "verif" build tag. They let an
+// external monitor observe every evaluation step and assert that the
+// evaluation context is restored when a step or an entry-point call returns.
+const verifOn = true
+
+// VerifState is a snapshot of the mutable evaluation context of an Executor.
+type VerifState struct {
+	Current, Root      any
+	InnermostArraySize int
+	IgnoreStructural   bool
+	Verbose            bool
+	UseTZ              bool
+	BaseAddr           uint
+	BaseID             int
+	Lax                bool
+}
+
+// VerifStepEvent describes the entry of one evaluation step
+// (executeItemOptUnwrapTarget).
+type VerifStepEvent struct {
+	Node       ast.Node
+	Value      any
+	Collecting bool // a result list is being collected (false: exists mode)
+	Unwrap     bool
+	State      VerifState
+}
+
+var (
+	// VerifOnStep, if set, is called at the entry of every evaluation step,
+	// before the context is polled.
+	VerifOnStep func(ctx context.Context, ev *VerifStepEvent)
+	// VerifOnFault, if set, is called when an invariant of the hooks fails.
+	VerifOnFault func(ctx context.Context, kind, detail string)
+	// VerifOnCall, if set, is called at the start (end=false) and at the
+	// end (end=true) of execute() and exists().
+	VerifOnCall func(ctx context.Context, end bool, st VerifState)
+)
+
+func verifSnapshot(exec *Executor) VerifState {
+	return VerifState{
+		Current:            exec.current,
+		Root:               exec.root,
+		InnermostArraySize: exec.innermostArraySize,
+		IgnoreStructural:   exec.ignoreStructuralErrors,
+		Verbose:            exec.verbose,
+		UseTZ:              exec.useTZ,
+		BaseAddr:           exec.baseObject.addr,
+		BaseID:             exec.baseObject.id,
+		Lax:                exec.path.IsLax(),
+	}
+}
+
+// verifSame reports whether a and b are the same JSON item: identical
+// container (same backing storage and length) or equal scalar.
+func verifSame(a, b any) bool {
+	switch a := a.(type) {
+	case map[string]any:
+		b, ok := b.(map[string]any)
+		return ok && reflect.ValueOf(a).Pointer() == reflect.ValueOf(b).Pointer()
+	case []any:
+		b, ok := b.([]any)
+		return ok && len(a) == len(b) &&
+			reflect.ValueOf(a).Pointer() == reflect.ValueOf(b).Pointer()
+	case Vars:
+		b, ok := b.(Vars)
+		return ok && reflect.ValueOf(a).Pointer() == reflect.ValueOf(b).Pointer()
+	}
+	switch b.(type) {
+	case map[string]any, []any, Vars:
+		return false
+	}
+	ta, tb := reflect.TypeOf(a), reflect.TypeOf(b)
+	if ta != tb {
+		return false
+	}
+	if ta != nil && !ta.Comparable() {
+		return false
+	}
+	return a == b
+}
+
+func verifDiff(a, b VerifState) string {
+	var d string
+	if !verifSame(a.Current, b.Current) {
+		d += " current"
+	}
+	if !verifSame(a.Root, b.Root) {
+		d += " root"
+	}
+	if a.InnermostArraySize != b.InnermostArraySize {
+		d += fmt.Sprintf(" innermostArraySize(%d->%d)", a.InnermostArraySize, b.InnermostArraySize)
+	}
+	if a.IgnoreStructural != b.IgnoreStructural {
+		d += fmt.Sprintf(" ignoreStructuralErrors(%v->%v)", a.IgnoreStructural, b.IgnoreStructural)
+	}
+	if a.Verbose != b.Verbose {
+		d += fmt.Sprintf(" verbose(%v->%v)", a.Verbose, b.Verbose)
+	}
+	if a.UseTZ != b.UseTZ {
+		d += " useTZ"
+	}
+	if a.BaseAddr != b.BaseAddr || a.BaseID != b.BaseID {
+		d += fmt.Sprintf(" baseObject(id %d->%d)", a.BaseID, b.BaseID)
+	}
+	return d
+}
+
+// verifStep is deferred at the top of executeItemOptUnwrapTarget: it reports
+// the step and, when the step returns, checks that the evaluation context is
+// what it was on entry.
+func verifStep(ctx context.Context, exec *Executor, node ast.Node, value any, collecting, unwrap bool) func() {
+	if VerifOnStep == nil && VerifOnFault == nil {
+		return func() {}
+	}
+	before := verifSnapshot(exec)
+	if VerifOnStep != nil {
+		VerifOnStep(ctx, &VerifStepEvent{
+			Node: node, Value: value, Collecting: collecting, Unwrap: unwrap, State: before,
+		})
+	}
+	return func() {
+		if VerifOnFault == nil {
+			return
+		}
+		if d := verifDiff(before, verifSnapshot(exec)); d != "" {
+			VerifOnFault(ctx, "context-not-restored", fmt.Sprintf("%T:%s", node, d))
+		}
+	}
+}
+
+// verifCall is deferred at the top of execute() and exists(): at the
+// quiescent end of an entry-point call the context must be the initial one.
+func verifCall(ctx context.Context, exec *Executor) func() {
+	if VerifOnCall == nil && VerifOnFault == nil {
+		return func() {}
+	}
+	verbose := exec.verbose
+	if VerifOnCall != nil {
+		VerifOnCall(ctx, false, verifSnapshot(exec))
+	}
+	return func() {
+		st := verifSnapshot(exec)
+		if VerifOnCall != nil {
+			VerifOnCall(ctx, true, st)
+		}
+		if VerifOnFault == nil {
+			return
+		}
+		var d string
+		if !verifSame(st.Current, st.Root) {
+			d += " current!=root"
+		}
+		if st.InnermostArraySize != -1 {
+			d += fmt.Sprintf(" innermostArraySize=%d", st.InnermostArraySize)
+		}
+		if st.IgnoreStructural != st.Lax {
+			d += fmt.Sprintf(" ignoreStructuralErrors=%v", st.IgnoreStructural)
+		}
+		if st.BaseAddr != 0 || st.BaseID != 0 {
+			d += fmt.Sprintf(" baseObject.id=%d", st.BaseID)
+		}
+		if st.Verbose != verbose {
+			d += fmt.Sprintf(" verbose=%v", st.Verbose)
+		}
+		if d != "" {
+			VerifOnFault(ctx, "not-quiescent", d)
+		}
+	}
+}
